@@ -4,7 +4,7 @@ import common
 from common import Result, CheckError
 
 PID = "C01"
-COUNTS = {"quick": 10500, "thorough": 300000}
+COUNTS = {"quick": 13400, "thorough": 300000}
 # faults the property places outside the guarantee: exhausting memory or stack
 EXCLUDED = re.compile(r"allocation size out of range|makeslice: (len|cap) out of range|makechan: size out of range|"
                       r"out of memory|cannot allocate|stack overflow|goroutine stack exceeds|makemap: size out of range")
